@@ -281,6 +281,7 @@ class LogCapture(logging.Handler):
             return
         if "failed to load full dump" in msg:
             self.rec.append(("loadFailed",))
+            self.last_exc = logging.Formatter().formatException(record.exc_info) if record.exc_info else msg
 
 
 def build(ns, spec, src, conf_kw=None):
